@@ -29,22 +29,29 @@ ASSUME = [
 # scenarios: -> (base TBase, [handle per thread]); construction must be deterministic
 
 def _ops(rng, size, writable, region=None):
-    """operation list of one thread on a handle of `size` bytes"""
+    """operation list of one thread on a handle of `size` bytes; everything stays inside `region` (handle coordinates) when given"""
     ops = []
     lo, hi = region if region else (0, size)
     for _ in range(rng.choice([2, 3])):
         a = rng.randrange(lo, max(lo + 1, hi))
         ops.append(('seek', a))
+        room = max(1, hi - a) if region else 1 << 30
         if writable and rng.random() < 0.5:
             n = max(1, min(rng.choice([1, 5, 16, 33]), hi - a))
             ops.append(('write', bytes(rng.getrandbits(8) for _ in range(n))))
             ops.append(('seek', a))
             ops.append(('read', n))
         else:
-            ops.append(('read', rng.choice([1, 7, 16, 40])))
+            n = min(rng.choice([1, 7, 16, 40]), room)
+            ops.append(('read', n))
             if rng.random() < 0.5:
-                ops.append(('read', rng.choice([3, 16])))
+                ops.append(('read', max(0, min(rng.choice([3, 16]), room - n))))
     return ops
+
+
+# threads that write get exclusive absolute regions (reads and writes of a thread stay inside its own), so that the outcome of a
+# correct implementation does not depend on the order of the threads: handle -> (lo, hi) in handle coordinates
+REGIONS = {'windows': {0: (0, 0x30), 1: (0x90, 0x100), 2: (0x140, 0x300)}}
 
 
 def run_ops(h, ops):
@@ -217,7 +224,7 @@ def gen_ops(rng, kind, sel):
     for i, h in enumerate(sc['handles']):
         # writes of different threads go to disjoint thirds of the smallest handle (so the final image is order-independent)
         w = sc['writable'] and kind in ('windows',) or (kind == 'nand' and i < 3)
-        ops.append(_ops(rng, sizes[i], w, None))
+        ops.append(_ops(rng, sizes[i], w, REGIONS.get(kind, {}).get(sel[i])))
     return [[list(o) if o[0] != 'write' else ['write', o[1].hex()] for o in t] for t in ops]
 
 
